@@ -506,7 +506,7 @@ CHECKS = {
             T('MC_Core', 'Core_C13_full.cfg', tiers=('thorough',)),
             C('core', 'TestCore', 'TraceCore', n={'quick': 120, 'thorough': 1500}),
             C('errors', 'TestErrorsReal', 'TraceErrors', trivial_len=3),
-            C('opts', 'TestOptions', 'TraceOptions', trivial_len=3, vtimeout=3000, env={'VERIF_OPTS_ONLY': 'ep-ipc'}),
+            C('opts', 'TestOptions', 'TraceOptions', trivial_len=3, vtimeout=3000, env={'VERIF_OPTS_ONLY': 'ep-'}),
         ],
         'assumptions': ASSUME_COMMON,
     },
